@@ -178,8 +178,7 @@ inductive PanicVal
   | nil
   deriving Repr, DecidableEq
 
-def panicNilMessage : String :=
-  "panic called with nil argument (obsolete and disabled by GODEBUG=panicnil=0)"
+def panicNilMessage : String := "panic called with nil argument"
 
 /-- `fmt.Sprintf("%v", rv)` of the recovered value. -/
 def PanicVal.render : PanicVal → String
